@@ -9,6 +9,7 @@
 #include "sx.hpp"
 #include <crab/cfg/cfg.hpp>
 #include <map>
+#include <set>
 #include <vector>
 
 namespace interp {
@@ -30,20 +31,44 @@ public:
 
   env_t env;                          // integer and Boolean (0/1) variables
   long shift_max = 6;                 // shift amounts are kept in [0, shift_max]
-  struct event { std::string kind; std::string where; form cond; };
+  struct event { std::string kind; std::string where; form cond; const void *stmt; size_t pos; };
   std::vector<event> trace;           // evaluated conditions and assertion outcomes, in order
   std::vector<std::pair<const void *, form>> asserts_seen; // (statement, condition value) for every assert executed
   const void *cur_stmt = nullptr;
   bool in_trace_mode = false;
+  // ---- twin executions (C17/C18): a second machine follows a recorded execution without forking
+  std::vector<label_t> labels_log;          // blocks entered, in order
+  std::vector<term> havoc_log;              // values produced by havoc/callsite outputs, in order
+  env_t *shared_init = nullptr;             // initial values of variables read before written (shared by twins)
+  bool guided = false;                      // no forking: conditions are only recorded
+  const std::vector<label_t> *follow = nullptr;
+  size_t fpos = 0;
+  const std::vector<term> *havoc_src = nullptr;
+  size_t hpos = 0;
+  size_t stop_events = ~(size_t)0;          // stop after this many recorded conditions (the primary stopped there)
+  bool lost = false;                        // the guided run could not follow the recorded execution
+  // perturbation: at the k-th visit of block `pert_label` (entry or exit) variable pert_var gets a fresh value
+  bool pert_on = false, pert_at_exit = true, pert_done = false;
+  label_t pert_label;
+  ikos::index_t pert_var = 0;
+  unsigned pert_visit = 1;
   bool assert_failed = false;         // the execution ended at a violated assertion
   const void *failed_stmt = nullptr;         // record conditions instead of forking (used by C17/C18)
 
   term get(const var_t &v) {
     auto it = env.find(v.index());
     if (it != env.end()) return it->second;
+    if (shared_init) {
+      auto jt = shared_init->find(v.index());
+      if (jt != shared_init->end()) {
+        env.insert({v.index(), jt->second});
+        return jt->second;
+      }
+    }
     term t = sx::fresh(("init." + v.name().str()).c_str());
     if (v.get_type().is_bool()) sx::assume(t >= term(0) && t <= term(1));
     env.insert({v.index(), t});
+    if (shared_init) shared_init->insert({v.index(), t});
     return t;
   }
   void set(const var_t &v, const term &t) {
@@ -64,9 +89,17 @@ public:
     return v != term(0);
   }
   void require(const form &f) { // the execution continues only where f holds
+    if (guided) {
+      if (trace.size() >= stop_events) throw stop_execution();
+      return;
+    }
     if (!sx::decide(f)) throw stop_execution();
   }
   void require_assert(const form &f, const void *stmt) {
+    if (guided) {
+      if (trace.size() >= stop_events) throw stop_execution();
+      return;
+    }
     if (!sx::decide(f)) {
       assert_failed = true;
       failed_stmt = stmt;
@@ -121,7 +154,7 @@ public:
   void visit(assign_t &s) override { set(s.lhs(), eval(s.rhs())); }
   void visit(assume_t &s) override {
     form c = eval(s.constraint());
-    trace.push_back({"assume", "", c});
+    trace.push_back({"assume", "", c, cur_stmt, labels_log.size() - 1});
     require(c);
   }
   void visit(select_t &s) override {
@@ -131,16 +164,26 @@ public:
   void visit(assert_t &s) override {
     form c = eval(s.constraint());
     asserts_seen.push_back({(const void *)&s, c});
-    trace.push_back({"assert", "", c});
+    trace.push_back({"assert", "", c, cur_stmt, labels_log.size() - 1});
     require_assert(c, (const void *)&s);
   }
   void visit(int_cast_t &s) override { throw sxe::no_verdict{"interp: int_cast not modelled"}; }
   void visit(unreach_t &) override { throw stop_execution(); }
   void visit(havoc_t &s) override { set(s.get_variable(), fresh_for(s.get_variable())); }
   term fresh_for(const var_t &v) {
+    if (havoc_src && hpos < havoc_src->size()) return (*havoc_src)[hpos++];
     term t = sx::fresh(("havoc." + v.name().str()).c_str());
     if (v.get_type().is_bool()) sx::assume(t >= term(0) && t <= term(1));
+    havoc_log.push_back(t);
     return t;
+  }
+  void maybe_perturb(const label_t &l, bool at_exit, unsigned visit) {
+    if (!pert_on || pert_done || !(l == pert_label) || at_exit != pert_at_exit || visit != pert_visit) return;
+    pert_done = true;
+    auto it = env.find(pert_var);
+    term t = sx::fresh("perturbed");
+    if (it != env.end()) it->second = t;
+    else env.insert({pert_var, t});
   }
   void visit(callsite_t &s) override { // intra-procedural semantics: outputs are arbitrary
     for (auto const &v : s.get_lhs()) set(v, fresh_for(v));
@@ -164,7 +207,7 @@ public:
   }
   void visit(bool_assume_t &s) override {
     form c = s.is_negated() ? get(s.cond()) == term(0) : get(s.cond()) == term(1);
-    trace.push_back({"assume", "", c});
+    trace.push_back({"assume", "", c, cur_stmt, labels_log.size() - 1});
     require(c);
   }
   void visit(bool_select_t &s) override {
@@ -173,17 +216,43 @@ public:
   void visit(bool_assert_t &s) override {
     form c = get(s.cond()) == term(1);
     asserts_seen.push_back({(const void *)&s, c});
-    trace.push_back({"assert", "", c});
+    trace.push_back({"assert", "", c, cur_stmt, labels_log.size() - 1});
     require_assert(c, (const void *)&s);
   }
 
+  std::set<label_t> exit_reach;
+  bool exit_reach_done = false;
+  bool reaches_exit(CFG cfg, const label_t &l) {
+    if (!exit_reach_done) {
+      exit_reach_done = true;
+      if (cfg.has_exit()) {
+        std::vector<label_t> wl{cfg.exit()};
+        exit_reach.insert(cfg.exit());
+        while (!wl.empty()) {
+          label_t n = wl.back();
+          wl.pop_back();
+          for (auto const &p : cfg.prev_nodes(n))
+            if (exit_reach.insert(p).second) wl.push_back(p);
+        }
+      }
+    }
+    return exit_reach.count(l) > 0;
+  }
   // run from block `start`; on_block(label, at_entry, *this) is called at every block entry/exit
   // reached by the execution.  Returns the label where the execution stopped.
   template <class F> label_t run(CFG cfg, label_t start, unsigned max_blocks, F on_block, bool *completed = nullptr) {
     label_t cur = start;
     if (completed) *completed = false;
+    std::map<label_t, unsigned> visits;
+    if (guided && follow) { // the recorded execution starts at the same block
+      if (follow->empty() || !((*follow)[0] == start)) { lost = true; return cur; }
+      fpos = 1;
+    }
     for (unsigned n = 0; n < max_blocks; n++) {
       auto &bb = cfg.get_node(cur);
+      labels_log.push_back(cur);
+      unsigned vis = ++visits[cur];
+      maybe_perturb(cur, false, vis);
       on_block(cur, true, *this);
       try {
         for (auto &s : bb) {
@@ -193,12 +262,61 @@ public:
       } catch (stop_execution &) {
         return cur;
       }
+      maybe_perturb(cur, true, vis);
       on_block(cur, false, *this);
       std::vector<label_t> succ;
       for (auto it = bb.next_blocks().first; it != bb.next_blocks().second; ++it) succ.push_back(*it);
       if (succ.empty()) {
         if (completed) *completed = true;
         return cur;
+      }
+      if (guided && follow) {
+        // follow the recorded block sequence; labels of the recording that do not exist here (merged or
+        // removed blocks) are skipped; extra blocks here are taken when they lead to the next recorded label
+        bool found = false;
+        while (fpos < follow->size() && !found) {
+          const label_t &want = (*follow)[fpos];
+          for (auto &sx_ : succ)
+            if (sx_ == want) { cur = sx_; found = true; }
+          if (!found) {
+            // a successor of ours that is not part of the recording but leads (through single-successor
+            // blocks) to the wanted label
+            for (auto &s0 : succ) {
+              if (found) break;
+              label_t c = s0;
+              for (int hop = 0; hop < 8; hop++) {
+                auto &nb = cfg.get_node(c);
+                std::vector<label_t> ns;
+                for (auto it = nb.next_blocks().first; it != nb.next_blocks().second; ++it) ns.push_back(*it);
+                bool hit = false;
+                for (auto &x : ns) hit = hit || x == want;
+                if (hit) { cur = s0; found = true; break; }
+                if (ns.size() != 1) break;
+                c = ns[0];
+              }
+            }
+            if (found) break; // we moved to an intermediate block; `want` stays pending
+            fpos++;           // the recorded label does not exist here: skip it
+          } else
+            fpos++;
+        }
+        if (!found) {
+          if (fpos >= follow->size()) {
+            // the recording ends here (its remaining blocks were merged away): keep going while the way to the
+            // exit is unambiguous
+            std::vector<label_t> cand;
+            for (auto &s0 : succ)
+              if (reaches_exit(cfg, s0)) cand.push_back(s0);
+            if (cand.size() == 1) {
+              cur = cand[0];
+              continue;
+            }
+            return cur;
+          }
+          lost = true;
+          return cur;
+        }
+        continue;
       }
       if (succ.size() == 1) cur = succ[0];
       else {
